@@ -120,6 +120,8 @@ fn dispatch(program_id: &Pubkey, accounts: &[AccountInfo], data: &[u8]) -> Progr
         system_process(accounts, data)
     } else if *program_id == wrapper_program_id() {
         wrapper_process(accounts, data)
+    } else if *program_id == crate::venue::drift::DRIFT {
+        crate::venue::drift::process(accounts, data)
     } else if *program_id == crate::venue::KAMINO {
         // stand-in venue (environment): see venue.rs
         crate::venue::process(accounts, data)
